@@ -12,6 +12,34 @@ HOT_NOTE = (SEQ_NOTE + " 'Notified' is read as 'dequeued by the reloader' (the c
             "armed over unordered reloads) are compared for presence only.")
 
 CHECKS = {
+ "C01": dict(
+  category="model_checking",
+  text="CacheRace.tla splits every call into look-up, value production and first-writer-wins insertion; TLC checks StableHandle, SeesWinner, "
+       "PresenceMonotone and HandleLive over every interleaving of 3 threads x 2 calls on 1-2 keys (insert-replaces as negative control). "
+       "Concurrent runs on the real cache (2-4 threads, forced simultaneous misses, thousands of unrelated insertions, long-lived handles "
+       "re-read) are validated against it by linearization search using the Insert hook inside the shard lock, under std and parking_lot locks.",
+  design="5/C01", note="All schedules are covered in the model only (3 threads, 2 keys); real schedules are OS-produced plus gate-forced ones. Handle identity = "
+       "address of the returned reference. Shard count and hash seed vary per cache instance (fresh cache per round).",
+  technique="TLA+ spec CacheRace.tla checked by TLC; trace validation with linearization search of concurrent runs on the real cache",
+ ),
+ "C07": dict(
+  category="model_checking",
+  text="RwGuard.tla refines rewrites and reads to word granularity under the entry lock; TLC checks NoTornRead, Pinned, ChangeOnlyInHotReload and "
+       "ReturnAfterPass over every interleaving of 2 readers, reloader and caller in both modes (two negative controls). Real reader threads with "
+       "short, long-held and mapped guards over a 4 KiB inline value race a stream of reloads under both lock implementations and both modes; "
+       "their GuardAcq/GuardRel observations, the Write hook and hot_reload Begin/End are validated against the specification.",
+  design="5/C07", note="Torn reads in the real runs are detected probabilistically; memory orderings are not modelled.",
+  technique="TLA+ spec RwGuard.tla checked by TLC; trace validation of guard/write/hot_reload events from reader-vs-reloader stress runs",
+ ),
+ "C13": dict(
+  category="model_checking",
+  text="The ownership ledgers of CacheRace.tla and AssetCache.tla are checked by TLC (StoredLive, LoserDropped, NoLeak, DropOnce, NoUseAfterDrop); "
+       "every value in the concurrent and sequential runs is a tracked token whose drop is accepted only after the step that kills it, exactly "
+       "once, with nothing left once the cache is gone; four value layouts (zero-sized, 1 byte, heap, 64-aligned) are counted through every "
+       "operation incl. reload replacement, and all (stored, requested) type pairs are asked of untyped handles and guards.",
+  design="5/C13", note="The ownership protocol is decided, not the memory safety of the unsafe code implementing it (tracked values and counters are observations).",
+  technique="TLA+ specs CacheRace.tla/AssetCache.tla checked by TLC; drop-ledger trace validation; layout probes",
+ ),
  "C08": dict(
   category="model_checking",
   text="Answers.tla models the answer mailbox at mutex/condvar grain; TLC exhausts 3-4 concurrent callers for deadlock freedom, OwnAnswer, "
